@@ -7,6 +7,9 @@ import Props.C09
 #print axioms Webauthn.Props.C09.to_keyspec_ec2
 #print axioms Webauthn.Props.C09.to_keyspec_rsa
 #print axioms Webauthn.Props.C09.to_keyspec_okp
+#print axioms Webauthn.Props.C09.decode_encode_ec2
+#print axioms Webauthn.Props.C09.decode_encode_rsa
+#print axioms Webauthn.Props.C09.decode_encode_okp
 #print axioms Webauthn.Props.C09.beNat_leading_zero
 #print axioms Webauthn.Props.C09.okp_only_eddsa
 #print axioms Webauthn.sigDispatchTable_ok
